@@ -40,7 +40,7 @@ ASSUMPTIONS = [
 LIBRARY = 'L1'
 INDEX_ALIAS = 'illumina_merged_ThruPlex48S_RP'
 QUICK_PHREDS = [0, 40, 41, 51, 52, 53, 93]
-LONG_PAIRS = 5004          # > 10000 handle-limiter writes in paired per-cell mode -> prune and re-open (append)
+LONG_PAIRS = 7000          # 6/7 accepted x 2 mates = 12000 handle-limiter writes > pruneEvery (10000): prune, then re-open (append)
 LONG_STRATEGIES_QUICK = ['CS2C8U6']
 LONG_STRATEGIES_THOROUGH = ['CS2C8U6', 'NLAIII384C8U3', 'scCHIC384C8U3', 'SCARC8R2', 'DamID2_3u4b3u6b', 'TCHIC']
 
@@ -170,7 +170,7 @@ def _words(short):
 
 def _long_word(short):
     a = _STATE['alph'][short]
-    cyc = ['W', 'U', 'W2', 'W3'] if 'W2' in a.bc and 'U' in a.bc else ['W', 'S']
+    cyc = ['W', 'W2', 'W3', 'W', 'W2', 'W3', 'U'] if 'W2' in a.bc and 'U' in a.bc else ['W', 'W', 'W', 'S']
     return [cyc[i % len(cyc)] for i in range(LONG_PAIRS)]
 
 
@@ -304,6 +304,8 @@ def run_shard(shard, tier, acc):
             acc.count('pairs_rejected', fates.count('R'))
             if 'A' in fates:
                 acc.count(f'accepting:{short}', 1)
+            if kind == 'long':
+                acc.count('long_word_handle_limiter_writes', 2 * fates.count('A'))
             for sig, detail in viols:
                 acc.violation(sig, case, detail)
     finally:
